@@ -55,6 +55,10 @@ def main():
     env = dict(os.environ, PYTHONPATH=wt)
     try:
         rc, out = sh("git apply --check %s && git apply %s" % (patch, patch), wt)
+        if rc != 0:
+            # the patch was written against an earlier HEAD (fix: commits have landed since): three-way merge
+            rc, out = sh("git apply --3way %s && git reset -q" % patch, wt)
+            res["applied_3way"] = rc == 0
         res["applies"] = rc == 0
         if rc != 0:
             print("patch does not apply:", out); return 1
